@@ -5,7 +5,7 @@ from ..world import Session, is_contextual, sync_streams, tol_for
 
 ID = "C07"
 LEVEL = "exploration"
-QUICK_RUNS = 800
+QUICK_RUNS = 3200
 RULE = ("Each run: drawn policy combination and a history of fit / partial_fit / arm changes / warm_start / queries in "
         "which every later fit (new data smaller, larger or with another column count) is a check point: a fresh "
         "bandit with the same configuration and the current arm list gets the primary's main stream position, both "
